@@ -178,7 +178,7 @@ func (c02) Generate(seed uint64, tier string, index int) any {
 			if g.R.Intn(3) == 0 {
 				f.BlockLen = 700 + 8*g.R.Intn(2000)
 			}
-			if g.R.Intn(12) == 0 {
+			if g.R.Intn(12) == 0 && !c02Repetitive(f.Target) && !c02Repetitive(f.Basis) {
 				// above the 128 KiB limit of later protocols; protocol 27 allows 2^29
 				f.BlockLen = []int{131073, 150000, 262144, 1 << 20, 1<<24 + 8, 1 << 29}[g.R.Intn(6)]
 			}
@@ -252,6 +252,22 @@ func (c02) Run(t *testing.T, scenario any, job *Job, res *Result) {
 	}
 }
 
+// c02Repetitive: content in which every window has the same weak checksum
+// (zeros, one repeated byte, short periods). With block lengths of hundreds of
+// kilobytes the sender computes a strong checksum over a whole block at
+// nearly every byte offset - hours of hashing for a few megabytes. That is
+// cost, not exactness (the property), so such pairings are not generated.
+func c02Repetitive(c *fstree.Content) bool {
+	if c == nil {
+		return false
+	}
+	switch c.Class {
+	case "zeros", "byte", "periodic":
+		return true
+	}
+	return false
+}
+
 func c02Sender(t *testing.T, sc *C02Scenario, job *Job, res *Result) {
 	lay := NewLayout(job.Scratch)
 	os.MkdirAll(lay.Src, 0755)
@@ -260,6 +276,10 @@ func c02Sender(t *testing.T, sc *C02Scenario, job *Job, res *Result) {
 		f := &sc.Files[i]
 		if f.BlockLen < 1 || f.StrongLen < 0 || f.StrongLen > 16 {
 			res.Invalid = "layout"
+			return
+		}
+		if f.BlockLen >= 65536 && (c02Repetitive(f.Target) || c02Repetitive(f.Basis)) {
+			res.Invalid = "block length of 64 KiB and more over repetitive content: hours of hashing, not this property"
 			return
 		}
 		byName[f.Name] = f
